@@ -192,6 +192,9 @@ def _main_body(env, raw, tensors, dirpath, box):
         except sched.SchedAbort:
             box["outcome"] = "aborted"
             raise
+        except MachineryError as e:
+            env.error = env.error or e
+            raise
         except InjectedWriteError as e:
             outcome, err = "raised", repr(e)
         except sched.RealWaitTimeout as e:
@@ -208,7 +211,8 @@ def _main_body(env, raw, tensors, dirpath, box):
         layout = []
         if ext is not None:
             rank = {n: k + 1 for k, n in enumerate(names)}
-            layout = [[rank.get(os.path.basename(str(x.location)), 0), int(x.offset or 0)] for x in ext]
+            layout = [[rank.get(os.path.basename(str(getattr(x, "location", "?"))), 0), int(getattr(x, "offset", 0) or 0)]
+                      for x in ext]
         box["layout"] = layout
 
         def fin():
@@ -248,7 +252,7 @@ def run_gated(raw: dict, chooser, dirpath: str) -> Result:
     return _result(env, raw, "gated", box, list(env.choices), list(env.runnable_log))
 
 
-def run_real(raw: dict, dirpath: str, timeout: float = 30.0) -> Result:
+def run_real(raw: dict, dirpath: str, timeout: float = 45.0) -> Result:
     """One execution with real threads; wrappers only log."""
     global _ENV
     _fresh(dirpath)
@@ -268,13 +272,28 @@ def run_real(raw: dict, dirpath: str, timeout: float = 30.0) -> Result:
 
             th = threading.Thread(target=runner, daemon=True, name="vf-c09-real")
             th.start()
-            th.join(timeout)
+            # a deadlock is declared only when NO event at all has been logged for `timeout` seconds
+            # (robust against a heavily loaded machine); a live execution is never cut short
+            seen, quiet = -1, 0.0
+            while th.is_alive():
+                th.join(0.5)
+                n = len(env.events)
+                quiet = quiet + 0.5 if n == seen else 0.0
+                seen = n
+                if quiet >= timeout:
+                    break
             if th.is_alive() or box.get("outcome") == "timeout":
                 env.deadlock = {"blocked": [["?", "real threads did not finish"]], "idle": [], "obs": env._snapshot()}
                 with env.log:
                     env.events.append({"t": 0, "op": "Deadlock", "i": 0, "cmp": 0, "post": env._snapshot()})
+                    nev = len(env.events)
+                env.abort()
+                th.join(10)
+                del env.events[nev:]
         finally:
             _ENV = None
+    if env.error is not None:
+        raise MachineryError(f"real-thread run: {env.error}")
     return _result(env, raw, "real", box, [], [])
 
 
